@@ -82,27 +82,58 @@ def groupAnswers (n : Nat) (σ : Subst) (c' : Nat) (ws l : Term) :
           | none => none
           | some r => some (⟨σ2, c'⟩ :: r)
 
-/-- what `findall_with_existential/5` decides: the goal to run, the witness variables, and the
-    substitution after the (pinned) aliasing; `none` = the call fails. -/
-def analyse (cfg : Cfg) (n : Nat) (σ : Subst) (t' g' : Term) :
-    Option (Option (Term × List String × Subst)) :=
+/-- what `findall_with_existential/5` decides (no fuel involved): fail, or run `goal` with the
+    witness variables `ws` after unifying the pairs `al` (non-empty only for the pinned code). -/
+inductive Ana where
+  | fail
+  | run (goal : Term) (ws : List String) (al : List (String × String))
+
+def analysePure (cfg : Cfg) (t' g' : Term) : Ana :=
   let w0 := witnesses0 t' g'
   let g1 := stripModule g'
   match g' , g1 with
-  | .var _, _ => some (some (g', w0, σ))
+  | .var _, _ => .run g' w0 []
   | _, .str "^" [_, _] =>
       let r := rightmostPower none g1
       let ev := existVars r.2
-      if cfg.fixed then some (some (stripModule r.1, witFixed w0 ev, σ))
+      if cfg.fixed then .run (stripModule r.1) (witFixed w0 ev) []
       else
         match witPinned w0 ev with
-        | none => some none
-        | some (al, ws) =>
-          match unify n σ (varList (al.map (·.1))) (varList (al.map (·.2))) with
-          | none => none
-          | some none => some none
-          | some (some σ') => some (some (stripModule r.1, ws, σ'))
-  | _, _ => some (some (g', w0, σ))
+        | none => .fail
+        | some (al, ws) => .run (stripModule r.1) ws al
+  | _, _ => .run g' w0 []
+
+/-- `analysePure` plus the aliasing unifications of the pinned code; `none` = out of fuel,
+    `some none` = the call fails. -/
+def analyse (cfg : Cfg) (n : Nat) (σ : Subst) (t' g' : Term) :
+    Option (Option (Term × List String × Subst)) :=
+  match analysePure cfg t' g' with
+  | .fail => some none
+  | .run goal ws al =>
+      match unify n σ (varList (al.map (·.1))) (varList (al.map (·.2))) with
+      | none => none
+      | some none => some none
+      | some (some σ') => some (some (goal, ws, σ'))
+
+/-- is the outcome of the sort of `bagof/3` (keys) resp. `setof/3` (whole pairs) independent of
+    the order of distinct variables? -/
+def sortOk (isSet : Bool) (pairs : List (Term × Term)) : Bool :=
+  if isSet then orderFixed (pairs.map fun p => pairTerm p.1 p.2) else orderFixed (pairs.map (·.1))
+
+/-- `keysort/2` + `split_by_variant/3` resp. `sort/2` + `split_by_variant/3` over the standard order. -/
+def groupsOf (cfg : Cfg) (isSet : Bool) (pairs : List (Term × Term)) : List (Term × List Term) :=
+  if isSet then setofGroups (Order.termCompare cfg.age) (Order.termCompare cfg.age) pairs
+  else bagofGroups (Order.termCompare cfg.age) pairs
+
+/-- the last goals of `bagof/3` / `setof/3`: enumerate the groups. A sort that depends on the order
+    of two distinct variables (`ok = false`) is outside the model. -/
+def finishX (n : Nat) (σa : Subst) (c' : Nat) (wsT l : Term) (ok : Bool)
+    (groups : List (Term × List Term)) : Res :=
+  if ok then
+    match groupAnswers n σa (c' + 1) wsT l groups with
+    | none => Res.oofR
+    | some sols => ⟨sols, false, .none, false⟩
+  else Res.oofR
 
 /-- `bagof/3` (`isSet = false`) and `setof/3` (`isSet = true`). -/
 def bagofX (cfg : Cfg) (isSet : Bool) (rec : Term → St → Res) (n : Nat) (s : St)
@@ -127,16 +158,7 @@ def bagofX (cfg : Cfg) (isSet : Bool) (rec : Term → St → Res) (n : Nat) (s :
             | some ps =>
               let c' := s.ctr + ps.length
               let pairs := (ps.map unpair).map (canonPair (dictName c'))
-              let keys := pairs.map (·.1)
-              let whole := pairs.map fun p => pairTerm p.1 p.2
-              if !(if isSet then orderFixed whole else orderFixed keys) then Res.oofR
-              else
-                let cmp := Order.termCompare cfg.age
-                let groups :=
-                  if isSet then setofGroups cmp cmp pairs else bagofGroups cmp pairs
-                match groupAnswers n σa (c' + 1) wsT l groups with
-                | none => Res.oofR
-                | some sols => ⟨sols, false, .none, false⟩
+              finishX n σa c' wsT l (sortOk isSet pairs) (groupsOf cfg isSet pairs)
     | _, _ => Res.oofR
 
 inductive XGoal where
